@@ -47,6 +47,10 @@ type node struct {
 	data []byte
 	kids map[string]*node
 	mode os.FileMode
+	// durability: what a crash right now would leave. dirty is set by every write or truncation and
+	// cleared by a successful Sync; durable is the content as of the last successful Sync.
+	durable []byte
+	dirty   bool
 }
 
 // FS is one simulated disk.
@@ -273,13 +277,14 @@ func (f *FS) openFile(kind, name string, flag int, perm os.FileMode) (afero.File
 		}
 		if flag&os.O_TRUNC != 0 {
 			n.data = nil
+			n.dirty = true
 		}
 	case errors.Is(err, syscall.ENOENT) && flag&os.O_CREATE != 0:
 		pn, base, perr2 := f.parent(p)
 		if perr2 != nil {
 			return nil, perr("open", name, perr2)
 		}
-		n = &node{mode: perm}
+		n = &node{mode: perm, dirty: true}
 		pn.kids[base] = n
 	default:
 		return nil, perr("open", name, err)
@@ -451,13 +456,40 @@ func (f *FS) Snapshot() map[string]string {
 	return out
 }
 
+// DurableSnapshot is Snapshot as a crash right now would leave it: a file written (or truncated) since
+// its last successful Sync holds what it held at that Sync (nothing, for a file never synced).
+func (f *FS) DurableSnapshot() map[string]string {
+	f.mu.Lock()
+	defer f.mu.Unlock()
+	out := map[string]string{}
+	var walk func(p string, n *node)
+	walk = func(p string, n *node) {
+		if n.dir {
+			if p != "" {
+				out[p] = "D"
+			}
+			for k, c := range n.kids {
+				walk(p+"/"+k, c)
+			}
+			return
+		}
+		if n.dirty {
+			out[p] = "F" + string(n.durable)
+		} else {
+			out[p] = "F" + string(n.data)
+		}
+	}
+	walk("", f.root)
+	return out
+}
+
 // Clone deep-copies the tree (not the log, not the hook).
 func (f *FS) Clone(label string) *FS {
 	f.mu.Lock()
 	defer f.mu.Unlock()
 	var cp func(n *node) *node
 	cp = func(n *node) *node {
-		m := &node{dir: n.dir, mode: n.mode, data: append([]byte(nil), n.data...)}
+		m := &node{dir: n.dir, mode: n.mode, data: append([]byte(nil), n.data...), durable: append([]byte(nil), n.durable...), dirty: n.dirty}
 		if n.dir {
 			m.kids = map[string]*node{}
 			for k, c := range n.kids {
@@ -606,6 +638,7 @@ func (h *file) Write(b []byte) (int, error) {
 		h.n.data = nd
 	}
 	copy(h.n.data[h.pos:], w)
+	h.n.dirty = true
 	h.pos = end
 	if ft != nil {
 		h.fs.ops[seq].N = len(w)
@@ -633,6 +666,8 @@ func (h *file) Sync() error {
 		return perr("sync", h.name, ft.Err)
 	}
 	h.fs.mu.Lock()
+	h.n.durable = append([]byte(nil), h.n.data...)
+	h.n.dirty = false
 	h.fs.end(seq, true, 0)
 	h.fs.mu.Unlock()
 	return nil
@@ -652,6 +687,7 @@ func (h *file) Truncate(size int64) error {
 		copy(nd, h.n.data)
 		h.n.data = nd
 	}
+	h.n.dirty = true
 	h.fs.end(seq, true, 0)
 	return nil
 }
